@@ -16,6 +16,7 @@ RULE = ("chain and two-branch topologies giving routes of 1..8 hops between real
         "(NETWORK_ACK frames by originator/PID, reception time at the origin) and the call history "
         "(result, virtual duration). Non-trivial: >=1 frame crossed the air and quiescence was "
         "reached; distinct = (hops, type class, fault plan kind and position, timeouts).")
+RULE += (" Later rounds added: same-header re-sends, foreign frames to relay during the origin's wait (with and without loss), multicast-off nodes, multicasts through relays (no NETWORK_ACK), multicast_level overrides.")
 REQUIRED = {"result_vs_ack_arrival": 150, "ack_count": 300, "no_ack_for_others": 150,
             "duration_bound": 300}
 BUDGET = {"quick": 480, "thorough": 900}
